@@ -120,7 +120,7 @@ theorem St.lAdd_linIdx {s : St} (h : LinIdx s) (given : String) (x : Obj) (now :
     simp only []
     split <;> exact h
 
-theorem St.stepOp_storeEq {s : St} (h : StoreEq s) (op : StOp) : StoreEq (s.stepOp op).1 := by
+theorem St.stepOp_storeEq {s : St} (h : StoreEq s) (op : ROp) : StoreEq (s.stepOp op).1 := by
   cases op with
   | add g x now => exact St.add_storeEq h g x now
   | rem id now =>
@@ -149,7 +149,7 @@ theorem St.stepOp_storeEq {s : St} (h : StoreEq s) (op : StOp) : StoreEq (s.step
     · exact lFindRules_rel storeEq_stRel.toStRelL _ _ _ h
   | clear => rfl
 
-theorem St.stepOp_linIdx {s : St} (h : LinIdx s) (op : StOp) : LinIdx (s.stepOp op).1 := by
+theorem St.stepOp_linIdx {s : St} (h : LinIdx s) (op : ROp) : LinIdx (s.stepOp op).1 := by
   have hk := h.1
   cases op with
   | add g x now =>
@@ -169,12 +169,12 @@ theorem St.stepOp_linIdx {s : St} (h : LinIdx s) (op : StOp) : LinIdx (s.stepOp 
     unfold St.findRules; rw [hk]; exact lFindRules_rel linIdx_stRelL _ _ _ h
   | clear => exact ⟨hk, rfl, rfl⟩
 
-theorem St.runOps_storeEq (ops : List StOp) : ∀ {s : St}, StoreEq s → StoreEq (s.runOps ops) := by
+theorem St.runOps_storeEq (ops : List ROp) : ∀ {s : St}, StoreEq s → StoreEq (s.runOps ops) := by
   induction ops with
   | nil => intro s h; exact h
   | cons op rest ih => intro s h; exact ih (St.stepOp_storeEq h op)
 
-theorem St.runOps_linIdx (ops : List StOp) : ∀ {s : St}, LinIdx s → LinIdx (s.runOps ops) := by
+theorem St.runOps_linIdx (ops : List ROp) : ∀ {s : St}, LinIdx s → LinIdx (s.runOps ops) := by
   induction ops with
   | nil => intro s h; exact h
   | cons op rest ih => intro s h; exact ih (St.stepOp_linIdx h op)
